@@ -168,7 +168,7 @@ MANIFEST_TEXT = {
              "the mega-check equals E_ipp - d*E_poly (inner-product relation and polynomial-commitment equation), so offsetting errors survive for at most one d; sum_of_powers (doubling loop) and delta equal their closed forms; the multiscalar operands always have equal lengths. "
              "Correspondence (64-bit quick; 128/256 thorough): Rust-proved -> model-verified and model-proved -> Rust-verified for extreme and random splits; model prover with non-bit digit vectors, committed != proven value, residuals on A/S/T1/T2/every L_j/R_j, "
              "cancelling offsets on t_x_blinding/e_blinding, tampered a/b, and malformed contexts (padding, zero in the middle, bit length 0/65/255, empty, wrong sum) each with a proof generated for exactly those context bytes; non-canonical scalars, special values, lengths, other widths.",
-        note="Trusted: Lean kernel; dalek/merlin/sha3 modelled. Not proved: the Bulletproofs extractor beyond its first two steps (poly_extract: three transcripts with distinct x open the aggregated commitment, T1 and T2; ipp_round_special_sound / ipp_special_sound: the inner-product argument is specially sound for any number of rounds over a tree of accepting transcripts, under independence of the generators). Prover completeness for every admissible split is theorem C05.Range.complete."),
+        note="Trusted: Lean kernel; dalek/merlin/sha3 modelled. Knowledge soundness is proved as special soundness in three steps under independence of the generators (poly_extract: three transcripts with distinct x open the aggregated commitment, T1 and T2; ipp_round_special_sound / ipp_special_sound: the inner-product argument is specially sound for any number of rounds over a tree of accepting transcripts; range_special_sound / bits_of_identity: a grid of accepting transcripts over N distinct y, m+2 distinct z, 3 x, 2 w forces every commitment to open to a value that is the weighted bit sum of its block). Not proved: the forking lemma (ROM) that produces such a grid from a successful prover, and the list-level rewriting of Eipp = 0 into the inner-product acceptance relation over folded generators. Prover completeness for every admissible split is theorem C05.Range.complete."),
     "C05": dict(
         technique="Lean 4 proof (constructor success, context = statement encoding, byte-level completeness prover->verifier) + differential correspondence of constructors and cross-verification (Rust-proved and model-proved, both verifiers)",
         text="Theorems new_ok / new_context / complete for zero-ciphertext, pubkey validity, ct-ct and ct-commitment equality, grouped validity 2/3 handles, batched grouped validity 2/3 handles, percentage-with-cap (below the cap and at the cap) and the three batched range-proof instructions (Range.complete: every admissible split; via the bit-decomposition identity for t0, the folding invariant of the inner-product argument and the s-vector lemma) at the byte level (for all keys, amounts, openings, nonces with non-identity masking commitments); "
